@@ -77,3 +77,9 @@ package actionlint
 //@   loop "range e.Inputs":
 //@     body_calls [C11] (*RuleExpression).checkScriptString iff e.Uses != nil && hasprefix(e.Uses.Value, "actions/github-script@") && range_k == "script"
 //@     body_calls [C11] (*RuleExpression).checkString iff !(e.Uses != nil && hasprefix(e.Uses.Value, "actions/github-script@") && range_k == "script")
+
+// a script field is scanned for placeholders whatever its text looks like (no shortcut on a weaker test)
+//@ func (*RuleExpression).checkScriptString
+//@   props C11
+//@   ensures str != nil ==> scanned[str.Pos]
+//@   forbid_call (*String).ContainsExpression ContainsExpression
